@@ -467,9 +467,15 @@ impl Spec {
             Some(r) => r,
             None => return "other",
         };
+        let tainted = self.clients.iter().flatten().any(|c| c.uid == req.client && (c.stale || c.garbage));
         for l in req.links.values() {
             if let Some(i) = l.fifo.iter().position(|p| *p == pid) {
-                return if i > 0 { "not the oldest buffered response of its server (order)" } else { "stream is at the borrow limit" };
+                return match (i > 0, tainted) {
+                    (true, false) => "not the oldest buffered response of its server (order)",
+                    // responses of an abandoned request sit in the reused channel and take buffer space
+                    (true, true) => "not the oldest buffered response of its server (order) (channel reused)",
+                    (false, _) => "stream is at the borrow limit",
+                };
             }
         }
         "response that was evicted, discarded (buffer full) or sent after the pending response of an earlier request was dropped"
@@ -491,7 +497,9 @@ impl Spec {
                 }
             }
         }
+        let tainted = self.clients.iter().flatten().any(|c| c.uid == req.client && (c.stale || c.garbage));
         match (live, dead) {
+            (true, _) if tainted => "buffered response of a live server (channel reused)",
             (true, _) => "buffered response of a live server",
             (false, true) => "buffered response of a server that was dropped afterwards",
             _ => "other",
